@@ -52,7 +52,8 @@ RETS = [{"kind": "none"}, {"kind": "bool", "v": False}, {"kind": "int", "v": 0},
         {"kind": "int", "v": 300}, {"kind": "bool", "v": True}, {"kind": "str", "v": "12"}, {"kind": "str", "v": "abc"},
         {"kind": "float", "v": "0.5"}, {"kind": "float", "v": "nan"}, {"kind": "str", "v": ""}, {"kind": "list", "v": []},
         {"kind": "int", "v": 255}, {"kind": "int", "v": 256}, {"kind": "int", "v": 1}]
-RAISES = ([{"type": t} for t in ("RuntimeError", "KeyError", "Coded", "CannotParse", "NoSuchOption", "KeyboardInterrupt")]
+RAISES = ([{"type": t} for t in ("RuntimeError", "KeyError", "Coded", "CodedText", "CodedNone", "CannotParse", "NoSuchOption",
+                                 "KeyboardInterrupt")]
           + [{"type": "RuntimeError", "msg": m} for m in ("multiline", "nonascii", "balanced", "opening", "closing",
                                                           "mismatched", "anyclose", "lt", "empty")]
           + [{"type": "CannotParse", "msg": m} for m in ("closing", "mismatched", "balanced")]
